@@ -41,8 +41,10 @@ func embedIDL(g Generator, i thriftPackageImporter, m *compile.Module) error {
 
 	hash := sha1.Sum(m.Raw)
 	var includes []string
-	for _, v := range m.Includes {
-		importPath, err := i.Package(v.Module.ThriftPath)
+	// Import the included packages in a fixed order: the aliases they get
+	// may depend on it.
+	for _, name := range sortStringKeys(m.Includes) {
+		importPath, err := i.Package(m.Includes[name].Module.ThriftPath)
 		if err != nil {
 			return wrapGenerateError("idl embedding", err)
 		}
